@@ -1,2 +1,952 @@
-//! w_sale: world helpers (filled in by the properties that need it).
-#![allow(dead_code, unused_imports)]
+//! Sale world for the six vending minters: factory -> minter -> collection (+ optional
+//! whitelist), driven by an operation language; every minter step is recorded together
+//! with the oracle answers (factory params, whitelist view) the real contracts gave at
+//! that moment and the observations after it, and printed as a Coq `sstep`.
+#![allow(dead_code)]
+use crate::chain::{self, App};
+use crate::util::*;
+use cosmwasm_std::{coin, Addr, Coin, Timestamp};
+use cw_multi_test::Executor;
+use serde_json::{json, Value};
+use std::collections::BTreeMap;
+
+pub const IBC: &str = "ibc/C4CFF46FD6DE35CA4CF4CE031E643C8FDC9BA4B99AE598E9B0ED98FE3A2319F9";
+pub const CREATOR: &str = "creator";
+pub const PAYADDR: &str = "payaddr";
+pub const BUYERS: [&str; 3] = ["buyer1", "buyer2", "buyer3"];
+pub const STRANGER: &str = "stranger";
+
+#[derive(Clone, Copy, Debug, PartialEq, Eq)]
+pub struct Variant {
+    pub name: &'static str,
+    pub featured: bool,
+    pub flex: bool,
+    pub merkle: bool,
+}
+pub const VARIANTS: [Variant; 6] = [
+    Variant { name: "vending-minter", featured: false, flex: false, merkle: false },
+    Variant { name: "vending-minter-featured", featured: true, flex: false, merkle: false },
+    Variant { name: "vending-minter-wl-flex", featured: false, flex: true, merkle: false },
+    Variant { name: "vending-minter-wl-flex-featured", featured: true, flex: true, merkle: false },
+    Variant { name: "vending-minter-merkle-wl", featured: false, flex: false, merkle: true },
+    Variant { name: "vending-minter-merkle-wl-featured", featured: true, flex: false, merkle: true },
+];
+impl Variant {
+    pub fn code(&self) -> Box<dyn cw_multi_test::Contract<cosmwasm_std::Empty>> {
+        match self.name {
+            "vending-minter" => chain::vending_minter(),
+            "vending-minter-featured" => chain::vending_minter_featured(),
+            "vending-minter-wl-flex" => chain::vending_minter_wl_flex(),
+            "vending-minter-wl-flex-featured" => chain::vending_minter_wl_flex_featured(),
+            "vending-minter-merkle-wl" => chain::vending_minter_merkle_wl(),
+            _ => chain::vending_minter_merkle_wl_featured(),
+        }
+    }
+    pub fn coq(&self) -> String {
+        format!("(mkVariant {} {} {})", coq_bool(self.featured), coq_bool(self.flex), coq_bool(self.merkle))
+    }
+}
+
+#[derive(Clone, Copy, Debug, PartialEq, Eq)]
+pub enum WlKind {
+    None,
+    Plain,
+    Tiered,
+    Flex,
+    TieredFlex,
+}
+
+#[derive(Clone, Debug)]
+pub struct FactoryParams {
+    pub min_price: u128,
+    pub denom: String,
+    pub mint_fee_bps: u64,
+    pub airdrop_price: u128,
+    pub airdrop_fee_bps: u64,
+    pub shuffle_fee: u128,
+    pub max_per_address: u32,
+    pub max_token_limit: u32,
+    pub offset_secs: u64,
+    pub creation_fee: u128,
+}
+impl Default for FactoryParams {
+    fn default() -> Self {
+        FactoryParams {
+            min_price: 50,
+            denom: NATIVE.into(),
+            mint_fee_bps: 1000,
+            airdrop_price: 0,
+            airdrop_fee_bps: 10000,
+            shuffle_fee: 500,
+            max_per_address: 50,
+            max_token_limit: 10000,
+            offset_secs: 7 * 24 * 3600,
+            creation_fee: 5_000,
+        }
+    }
+}
+
+#[derive(Clone, Debug)]
+pub struct SaleCfg {
+    pub variant: usize,
+    pub updatable_collection: bool,
+    pub fp: FactoryParams,
+    pub num_tokens: u32,
+    pub pal: u32,
+    pub price: u128,
+    pub start_in_secs: u64,
+    pub payment_address: bool,
+    pub wl: WlKind,
+    /// whitelist window(s) relative to creation: (start_in, end_in) seconds; tiered kinds use all
+    pub wl_windows: Vec<(u64, u64)>,
+    pub wl_price: u128,
+    pub wl_limit: u32,
+    pub wl_stage_limit: Option<u32>,
+    pub wl_members: Vec<&'static str>,
+    pub wl_flex_count: u32,
+}
+impl SaleCfg {
+    pub fn basic(variant: usize) -> Self {
+        SaleCfg {
+            variant,
+            updatable_collection: false,
+            fp: FactoryParams::default(),
+            num_tokens: 10,
+            pal: 3,
+            price: 100,
+            start_in_secs: 3000,
+            payment_address: false,
+            wl: WlKind::None,
+            wl_windows: vec![(1000, 2000)],
+            wl_price: 60,
+            wl_limit: 2,
+            wl_stage_limit: None,
+            wl_members: vec!["buyer1", "buyer2"],
+            wl_flex_count: 2,
+        }
+    }
+}
+
+pub struct SaleWorld {
+    pub app: App,
+    pub v: Variant,
+    pub cfg: SaleCfg,
+    pub factory: Addr,
+    pub minter: Addr,
+    pub collection: Addr,
+    pub whitelist: Option<Addr>,
+    pub wl_kind: WlKind,
+    pub spare_whitelist: Option<Addr>,
+    pub addrs: Ids,
+    pub denoms: Ids,
+    pub t0: u64,
+    pub initial_supply: BTreeMap<String, u128>,
+    pub wl_code: BTreeMap<&'static str, u64>,
+    /// Merkle mint arguments of the step being run (stage, proof hashes, allocation):
+    /// consulted by `wl_view` to ask the whitelist the proof-form HasMember question
+    pub proof_ctx: Option<(Option<u32>, Vec<String>, Option<u32>)>,
+}
+
+const S: u64 = 1_000_000_000;
+
+fn ts(n: u64) -> Value {
+    json!(n.to_string())
+}
+fn coinv(amount: u128, denom: &str) -> Value {
+    json!({"amount": amount.to_string(), "denom": denom})
+}
+
+impl SaleWorld {
+    pub fn tracked_accounts(&self) -> Vec<String> {
+        let mut v: Vec<String> = vec![CREATOR.into(), PAYADDR.into()];
+        v.extend(BUYERS.iter().map(|s| s.to_string()));
+        v.push(STRANGER.into());
+        v.push(self.minter.to_string());
+        v.push(self.factory.to_string());
+        v.push(FOUNDATION.into());
+        v.push(LAUNCHPAD_DAO.into());
+        v.push(LIQUIDITY_DAO.into());
+        v.push(chain::FAIRBURN_POOL.into());
+        v
+    }
+    pub fn count_accounts(&self) -> Vec<String> {
+        let mut v: Vec<String> = vec![CREATOR.into()];
+        v.extend(BUYERS.iter().map(|s| s.to_string()));
+        v.push(STRANGER.into());
+        v
+    }
+
+    fn fp_json(fp: &FactoryParams, code_id: u64, sg721_ids: &[u64]) -> Value {
+        json!({"params": {
+            "code_id": code_id, "allowed_sg721_code_ids": sg721_ids, "frozen": false,
+            "creation_fee": coinv(fp.creation_fee, NATIVE),
+            "min_mint_price": coinv(fp.min_price, &fp.denom),
+            "mint_fee_bps": fp.mint_fee_bps,
+            "max_trading_offset_secs": fp.offset_secs,
+            "extension": {
+                "max_token_limit": fp.max_token_limit, "max_per_address_limit": fp.max_per_address,
+                "airdrop_mint_price": coinv(fp.airdrop_price, NATIVE),
+                "airdrop_mint_fee_bps": fp.airdrop_fee_bps,
+                "shuffle_fee": coinv(fp.shuffle_fee, NATIVE)
+            }}})
+    }
+
+    /// Build the world; Err(reason) if creation is rejected by the contracts.
+    pub fn new(cfg: SaleCfg) -> Result<SaleWorld, String> {
+        let v = VARIANTS[cfg.variant];
+        let mut app = chain::new_app();
+        let t0 = chain::now(&app);
+        let mut addrs = addr_ids();
+        let mut denoms = denom_ids();
+        addrs.id(chain::FAIRBURN_POOL); // 4? no: fixed below
+        let mut addrs = Ids::with_fixed(
+            &[(FOUNDATION, 1), (LAUNCHPAD_DAO, 2), (LIQUIDITY_DAO, 3), (chain::FAIRBURN_POOL, 4), ("#burned", 5)],
+            10,
+        );
+        denoms.id(IBC);
+        for a in [CREATOR, PAYADDR, BUYERS[0], BUYERS[1], BUYERS[2], STRANGER] {
+            addrs.id(a);
+            chain::mint_coins(&mut app, a, 1_000_000_000_000, NATIVE);
+            chain::mint_coins(&mut app, a, 1_000_000_000_000, IBC);
+        }
+        let minter_code = app.store_code(v.code());
+        let factory_code = app.store_code(chain::vending_factory());
+        let sg721_code =
+            app.store_code(if cfg.updatable_collection { chain::sg721_updatable() } else { chain::sg721_base() });
+        let mut wl_code = BTreeMap::new();
+        wl_code.insert("plain", app.store_code(chain::whitelist()));
+        wl_code.insert("tiered", app.store_code(chain::tiered_whitelist()));
+        wl_code.insert("flex", app.store_code(chain::whitelist_flex()));
+        wl_code.insert("tiered-flex", app.store_code(chain::tiered_whitelist_flex()));
+        wl_code.insert("merkle", app.store_code(chain::whitelist_merkletree()));
+        wl_code.insert("tiered-merkle", app.store_code(chain::tiered_whitelist_merkletree()));
+        let factory = app
+            .instantiate_contract(
+                factory_code,
+                Addr::unchecked(CREATOR),
+                &Self::fp_json(&cfg.fp, minter_code, &[sg721_code]),
+                &[],
+                "factory",
+                None,
+            )
+            .map_err(|e| format!("factory: {:#}", e))?;
+        let mut w = SaleWorld {
+            app,
+            v,
+            cfg: cfg.clone(),
+            factory,
+            minter: Addr::unchecked("none"),
+            collection: Addr::unchecked("none"),
+            whitelist: None,
+            wl_kind: cfg.wl,
+            spare_whitelist: None,
+            addrs,
+            denoms,
+            t0,
+            initial_supply: BTreeMap::new(),
+            wl_code,
+            proof_ctx: None,
+        };
+        let denom = cfg.fp.denom.clone();
+        if cfg.wl != WlKind::None {
+            let a = w.make_whitelist(cfg.wl, &cfg.wl_windows, cfg.wl_price, &denom, cfg.wl_limit, cfg.wl_stage_limit)?;
+            w.whitelist = Some(a);
+        }
+        let create = json!({"create_minter": {
+            "init_msg": {
+                "base_token_uri": "ipfs://bafybeigi3bwpvyvsmnbj46ra4hyffcxdeaj6ntfk5jpic5mx27x6ih2qvq/images",
+                "payment_address": if cfg.payment_address { Some(PAYADDR) } else { None },
+                "start_time": ts(t0 + cfg.start_in_secs * S),
+                "num_tokens": cfg.num_tokens,
+                "mint_price": coinv(cfg.price, &denom),
+                "per_address_limit": cfg.pal,
+                "whitelist": w.whitelist.as_ref().map(|a| a.to_string()),
+            },
+            "collection_params": {
+                "code_id": sg721_code, "name": "Collection", "symbol": "COL",
+                "info": {"creator": CREATOR, "description": "d", "image": "https://example.com/image.png",
+                         "external_link": "https://example.com/external.html", "explicit_content": false,
+                         "start_trading_time": null,
+                         "royalty_info": {"payment_address": CREATOR, "share": "0.1"}}
+            }}});
+        let fee = if cfg.fp.creation_fee > 0 { vec![coin(cfg.fp.creation_fee, NATIVE)] } else { vec![] };
+        chain::exec(&mut w.app, CREATOR, &w.factory.clone(), &create, &fee).map_err(|e| format!("create: {}", e))?;
+        // contract addresses are contract<N> in creation order: the minter and collection are the last two
+        let cfgq: Value =
+            w.find_minter().ok_or_else(|| "minter not found after creation".to_string())?;
+        w.collection = Addr::unchecked(cfgq["sg721_address"].as_str().unwrap());
+        for a in [w.minter.to_string(), w.factory.to_string(), w.collection.to_string()] {
+            w.addrs.id(&a);
+        }
+        if let Some(wl) = w.whitelist.clone() {
+            w.addrs.id(wl.as_str());
+        }
+        for d in [NATIVE, IBC] {
+            w.initial_supply.insert(d.to_string(), chain::supply(&w.app, d));
+        }
+        Ok(w)
+    }
+
+    fn find_minter(&mut self) -> Option<Value> {
+        // scan contract addresses downward from a generous bound
+        for n in (0..40).rev() {
+            let a = Addr::unchecked(format!("contract{}", n));
+            if let Ok(v) = self.app.wrap().query_wasm_smart::<Value>(a.clone(), &json!({"config": {}})) {
+                if v.get("sg721_address").is_some() && v.get("factory").is_some() {
+                    self.minter = a;
+                    return Some(v);
+                }
+            }
+        }
+        None
+    }
+
+    pub fn make_whitelist(
+        &mut self,
+        kind: WlKind,
+        windows: &[(u64, u64)],
+        price: u128,
+        denom: &str,
+        limit: u32,
+        stage_limit: Option<u32>,
+    ) -> Result<Addr, String> {
+        let now = chain::now(&self.app);
+        let members = self.cfg.wl_members.clone();
+        let flexm: Vec<Value> =
+            members.iter().map(|m| json!({"address": m, "mint_count": self.cfg.wl_flex_count})).collect();
+        let stages: Vec<Value> = windows
+            .iter()
+            .enumerate()
+            .map(|(i, (s, e))| {
+                json!({"name": format!("stage{}", i), "start_time": ts(now + s * S), "end_time": ts(now + e * S),
+                       "mint_price": coinv(price, denom), "per_address_limit": limit, "mint_count_limit": stage_limit})
+            })
+            .collect();
+        let (code, msg) = match kind {
+            WlKind::Plain => (
+                "plain",
+                json!({"members": members, "start_time": ts(now + windows[0].0 * S), "end_time": ts(now + windows[0].1 * S),
+                       "mint_price": coinv(price, denom), "per_address_limit": limit, "member_limit": 1000,
+                       "admins": [CREATOR], "admins_mutable": true}),
+            ),
+            WlKind::Flex => (
+                "flex",
+                json!({"members": flexm, "start_time": ts(now + windows[0].0 * S), "end_time": ts(now + windows[0].1 * S),
+                       "mint_price": coinv(price, denom), "member_limit": 1000, "admins": [CREATOR],
+                       "admins_mutable": true, "whale_cap": null}),
+            ),
+            WlKind::Tiered => (
+                "tiered",
+                json!({"members": windows.iter().map(|_| members.clone()).collect::<Vec<_>>(), "stages": stages,
+                       "member_limit": 1000, "admins": [CREATOR], "admins_mutable": true}),
+            ),
+            WlKind::TieredFlex => (
+                "tiered-flex",
+                json!({"members": windows.iter().map(|_| flexm.clone()).collect::<Vec<_>>(), "stages": stages,
+                       "member_limit": 1000, "admins": [CREATOR], "admins_mutable": true, "whale_cap": null}),
+            ),
+            WlKind::None => return Err("no whitelist".into()),
+        };
+        let code_id = self.wl_code[code];
+        let r = crate::util::catch(|| {
+            self.app.instantiate_contract(
+                code_id,
+                Addr::unchecked(CREATOR),
+                &msg,
+                &[coin(100_000_000, NATIVE)],
+                "wl",
+                None,
+            )
+        });
+        match r {
+            Ok(Ok(a)) => {
+                self.addrs.id(a.as_str());
+                Ok(a)
+            }
+            Ok(Err(e)) => Err(format!("whitelist: {:#}", e)),
+            Err(p) => Err(p),
+        }
+    }
+
+    /// instantiate any whitelist kind from a caller-built JSON message (admin = CREATOR)
+    pub fn make_whitelist_raw(&mut self, code_key: &str, msg: &Value, fee: u128) -> Result<Addr, String> {
+        let code_id = self.wl_code[code_key];
+        let funds = if fee > 0 { vec![coin(fee, NATIVE)] } else { vec![] };
+        let r = crate::util::catch(|| {
+            self.app.instantiate_contract(code_id, Addr::unchecked(CREATOR), msg, &funds, "wl", None)
+        });
+        match r {
+            Ok(Ok(a)) => {
+                self.addrs.id(a.as_str());
+                Ok(a)
+            }
+            Ok(Err(e)) => Err(format!("whitelist: {:#}", e)),
+            Err(p) => Err(p),
+        }
+    }
+
+    // ---------- oracle collection ----------
+    pub fn factory_params(&self) -> Value {
+        self.app.wrap().query_wasm_smart::<Value>(self.factory.clone(), &json!({"params": {}})).unwrap()["params"].clone()
+    }
+    pub fn fp_coq(&mut self) -> String {
+        let p = self.factory_params();
+        let n = |v: &Value| v.as_str().map(|s| s.to_string()).unwrap_or_else(|| v.to_string());
+        let e = &p["extension"];
+        let min_d = self.denoms.id(p["min_mint_price"]["denom"].as_str().unwrap());
+        let air_d = self.denoms.id(e["airdrop_mint_price"]["denom"].as_str().unwrap());
+        format!(
+            "(mkFP {} {} {} {} {} {} {} {} {})",
+            n(&p["min_mint_price"]["amount"]),
+            min_d,
+            p["mint_fee_bps"],
+            n(&e["airdrop_mint_price"]["amount"]),
+            air_d,
+            e["airdrop_mint_fee_bps"],
+            n(&e["shuffle_fee"]["amount"]),
+            e["max_per_address_limit"],
+            p["max_trading_offset_secs"]
+        )
+    }
+
+    /// What `wl` answers right now to the queries a minter issues on behalf of `sender`.
+    pub fn wl_view(&mut self, wl: &Addr, sender: &str) -> Option<String> {
+        let q = |app: &App, m: Value| -> Option<Value> { app.wrap().query_wasm_smart::<Value>(wl.clone(), &m).ok() };
+        let cfg = q(&self.app, json!({"config": {}}))?;
+        let active = cfg.get("is_active")?.as_bool()?;
+        let price: u128 = cfg["mint_price"]["amount"].as_str()?.parse().ok()?;
+        let denom = self.denoms.id(cfg["mint_price"]["denom"].as_str()?);
+        let limit = cfg.get("per_address_limit").and_then(|x| x.as_u64()).unwrap_or(0);
+        let member_limit = cfg.get("member_limit").and_then(|x| x.as_u64()).unwrap_or(0);
+        let num_members = cfg.get("num_members").and_then(|x| x.as_u64()).unwrap_or(0);
+        let has_plain = q(&self.app, json!({"has_member": {"member": sender}})).and_then(|v| v["has_member"].as_bool());
+        let tiered = cw2::query_contract_info(&self.app.wrap(), wl.clone())
+            .map(|i| i.contract.contains("tiered-whitelist"))
+            .unwrap_or(false);
+        let stage_id = q(&self.app, json!({"active_stage_id": {}})).and_then(|v| v.as_u64());
+        let stage_limit: Option<Option<u64>> = match stage_id {
+            Some(id) if id >= 1 => q(&self.app, json!({"stage": {"stage_id": id - 1}}))
+                .map(|v| v["stage"]["mint_count_limit"].as_u64()),
+            _ => None,
+        };
+        let flex = q(&self.app, json!({"member": {"member": sender}})).and_then(|v| v["mint_count"].as_u64());
+        let has_proof: Option<bool> = match &self.proof_ctx {
+            Some((stage, proof, alloc)) => {
+                let leaf = match (stage, alloc) {
+                    (None, Some(a)) => format!("{}{}", sender, a),
+                    (Some(s), None) => format!("{}{}", s, sender),
+                    (Some(s), Some(a)) => format!("{}{}{}", s, sender, a),
+                    (None, None) => sender.to_string(),
+                };
+                q(&self.app, json!({"has_member": {"member": leaf, "proof_hashes": proof}})).and_then(|v| v["has_member"].as_bool())
+            }
+            None => None,
+        };
+        let ob = |o: Option<bool>| match o {
+            Some(b) => format!("(Some {})", coq_bool(b)),
+            None => "None".into(),
+        };
+        let sl = match stage_limit {
+            None => "None".to_string(),
+            Some(None) => "(Some None)".to_string(),
+            Some(Some(x)) => format!("(Some (Some {}))", x),
+        };
+        Some(format!(
+            "(Some (mkWV {} {} {} {} {} {} {} {} {} {} {} {}))",
+            coq_bool(active),
+            price,
+            denom,
+            limit,
+            member_limit,
+            num_members,
+            ob(has_plain),
+            ob(has_proof),
+            coq_bool(tiered),
+            coq_opt_n(stage_id),
+            sl,
+            coq_opt_n(flex)
+        ))
+    }
+    pub fn cur_wl_view(&mut self, sender: &str) -> String {
+        let wl = self.minter_config()["whitelist"].as_str().map(Addr::unchecked);
+        match wl {
+            Some(a) => self.wl_view(&a, sender).unwrap_or_else(|| "None".into()),
+            None => "None".into(),
+        }
+    }
+
+    // ---------- observations ----------
+    pub fn minter_config(&self) -> Value {
+        self.app.wrap().query_wasm_smart::<Value>(self.minter.clone(), &json!({"config": {}})).unwrap()
+    }
+    pub fn mintable(&self) -> u64 {
+        self.app.wrap().query_wasm_smart::<Value>(self.minter.clone(), &json!({"mintable_num_tokens": {}})).unwrap()
+            ["count"]
+            .as_u64()
+            .unwrap()
+    }
+    pub fn mint_price_q(&self) -> Option<Value> {
+        self.app.wrap().query_wasm_smart::<Value>(self.minter.clone(), &json!({"mint_price": {}})).ok()
+    }
+    pub fn mint_count(&self, who: &str) -> (u64, u64) {
+        let v = self
+            .app
+            .wrap()
+            .query_wasm_smart::<Value>(self.minter.clone(), &json!({"mint_count": {"address": who}}))
+            .unwrap();
+        (v["count"].as_u64().unwrap(), v.get("whitelist_count").and_then(|x| x.as_u64()).unwrap_or(0))
+    }
+    pub fn positions(&self) -> Vec<(u32, u32)> {
+        let st = self.app.contract_storage(&self.minter);
+        vending_minter::state::MINTABLE_TOKEN_POSITIONS
+            .range(&*st, None, None, cosmwasm_std::Order::Ascending)
+            .map(|r| r.unwrap())
+            .collect()
+    }
+    pub fn trading_time(&self) -> Option<u64> {
+        let v = self
+            .app
+            .wrap()
+            .query_wasm_smart::<Value>(self.collection.clone(), &json!({"collection_info": {}}))
+            .unwrap();
+        v["start_trading_time"].as_str().map(|s| s.parse().unwrap())
+    }
+    pub fn owner_of(&self, token: u64) -> Option<String> {
+        self.app
+            .wrap()
+            .query_wasm_smart::<Value>(
+                self.collection.clone(),
+                &json!({"owner_of": {"token_id": token.to_string(), "include_expired": null}}),
+            )
+            .ok()
+            .and_then(|v| v["owner"].as_str().map(|s| s.to_string()))
+    }
+    pub fn all_tokens(&self) -> Vec<String> {
+        let mut out: Vec<String> = vec![];
+        loop {
+            let v = self
+                .app
+                .wrap()
+                .query_wasm_smart::<Value>(
+                    self.collection.clone(),
+                    &json!({"all_tokens": {"start_after": out.last(), "limit": 100}}),
+                )
+                .unwrap();
+            let page: Vec<String> = v["tokens"].as_array().unwrap().iter().map(|t| t.as_str().unwrap().to_string()).collect();
+            if page.is_empty() {
+                break;
+            }
+            out.extend(page);
+        }
+        out
+    }
+    pub fn num_tokens_collection(&self) -> u64 {
+        self.app.wrap().query_wasm_smart::<Value>(self.collection.clone(), &json!({"num_tokens": {}})).unwrap()["count"]
+            .as_u64()
+            .unwrap()
+    }
+
+    /// the observation vector, same layout as SaleCorr.observe
+    pub fn observe(&mut self) -> Vec<u128> {
+        let c = self.minter_config();
+        let mut v: Vec<u128> = vec![];
+        v.push(self.mintable() as u128);
+        v.push(c["mint_price"]["amount"].as_str().unwrap().parse().unwrap());
+        v.push(self.denoms.id(c["mint_price"]["denom"].as_str().unwrap()) as u128);
+        match c["discount_price"].get("amount") {
+            Some(a) => {
+                v.push(1);
+                v.push(a.as_str().unwrap().parse().unwrap())
+            }
+            None => {
+                v.push(0);
+                v.push(0)
+            }
+        }
+        v.push(c["start_time"].as_str().unwrap().parse().unwrap());
+        v.push(c["per_address_limit"].as_u64().unwrap() as u128);
+        match c["whitelist"].as_str() {
+            Some(a) => {
+                v.push(1);
+                let id = self.addrs.id(a);
+                v.push(id as u128)
+            }
+            None => {
+                v.push(0);
+                v.push(0)
+            }
+        }
+        match self.mint_price_q() {
+            Some(p) => {
+                v.push(1);
+                v.push(p["current_price"]["amount"].as_str().unwrap().parse().unwrap());
+                v.push(self.denoms.id(p["current_price"]["denom"].as_str().unwrap()) as u128);
+            }
+            None => v.extend([0, 0, 0]),
+        }
+        match self.trading_time() {
+            Some(t) => v.extend([1, t as u128]),
+            None => v.extend([0, 0]),
+        }
+        for a in self.count_accounts() {
+            let (c, wl) = self.mint_count(&a);
+            v.push(c as u128);
+            v.push(wl as u128);
+        }
+        v
+    }
+
+    pub fn balances_coq(&mut self) -> String {
+        let mut items = vec![];
+        for a in self.tracked_accounts() {
+            for d in [NATIVE, IBC] {
+                let id = self.addrs.id(&a);
+                let did = self.denoms.id(d);
+                items.push(format!("({}, {}, {})", id, did, chain::balance(&self.app, &a, d)));
+            }
+        }
+        for d in [NATIVE, IBC] {
+            let did = self.denoms.id(d);
+            let burned = self.initial_supply[d] - chain::supply(&self.app, d);
+            items.push(format!("(5, {}, {})", did, burned));
+        }
+        coq_list(&items)
+    }
+    pub fn balances_raw(&self) -> BTreeMap<(String, String), u128> {
+        let mut m = BTreeMap::new();
+        for a in self.tracked_accounts() {
+            for d in [NATIVE, IBC] {
+                m.insert((a.clone(), d.to_string()), chain::balance(&self.app, &a, d));
+            }
+        }
+        for d in [NATIVE, IBC] {
+            m.insert(("#supply".into(), d.to_string()), chain::supply(&self.app, d));
+        }
+        m
+    }
+
+    /// initial model state from the minter's own queries + raw position table
+    pub fn init_state_coq(&mut self) -> String {
+        let c = self.minter_config();
+        let admin = self.addrs.id(c["admin"].as_str().unwrap());
+        let pay = if self.cfg.payment_address { Some(self.addrs.id(PAYADDR)) } else { None };
+        let wl = c["whitelist"].as_str().map(|a| self.addrs.id(a));
+        let denom = self.denoms.id(c["mint_price"]["denom"].as_str().unwrap());
+        let start: u64 = c["start_time"].as_str().unwrap().parse().unwrap();
+        let pos: Vec<String> = self.positions().iter().map(|(p, i)| format!("({}, {})", p, i)).collect();
+        // LAST_DISCOUNT_TIME = creation time - 12h (raw storage)
+        let last = {
+            let st = self.app.contract_storage(&self.minter);
+            vending_minter::state::LAST_DISCOUNT_TIME.load(&*st).unwrap().nanos()
+        };
+        format!(
+            "(mkVS {} {} {} {} {} {} {} {} None {} {} [] 0 [] [] [] [] [] 0 0 0 0 {} {})",
+            admin,
+            coq_opt_n(pay),
+            c["num_tokens"],
+            c["per_address_limit"],
+            coq_opt_n(wl),
+            start,
+            c["mint_price"]["amount"].as_str().unwrap(),
+            denom,
+            self.mintable(),
+            coq_list(&pos),
+            last,
+            coq_opt_n(self.trading_time())
+        )
+    }
+}
+
+// ---------- operation language ----------
+#[derive(Clone, Debug, PartialEq, Eq, serde::Serialize, serde::Deserialize)]
+pub enum Op {
+    /// advance the clock to t0 + secs*1e9 + nanos (absolute, relative to world creation)
+    At { secs: u64, nanos: i64 },
+    Mint { who: String, funds: Vec<(String, u128)> },
+    /// Mint with Merkle arguments (merkle-wl variants only)
+    MintM { who: String, funds: Vec<(String, u128)>, stage: Option<u32>, proof: Option<Vec<String>>, allocation: Option<u32> },
+    MintTo { who: String, recipient: String, funds: Vec<(String, u128)> },
+    MintFor { who: String, token_id: u32, recipient: String, funds: Vec<(String, u128)> },
+    Purge { who: String },
+    Shuffle { who: String, funds: Vec<(String, u128)> },
+    BurnRemaining { who: String },
+    UpdateMintPrice { who: String, price: u128 },
+    UpdateStartTime { who: String, secs: u64, nanos: i64 },
+    UpdateStartTradingTime { who: String, t: Option<(u64, i64)> },
+    UpdatePerAddressLimit { who: String, limit: u32 },
+    /// attach the spare whitelist (created on demand with the given window relative to now)
+    SetWhitelist { who: String, kind: u8, start_in: u64, end_in: u64, price: u128, ibc: bool },
+    UpdateDiscountPrice { who: String, price: u128 },
+    RemoveDiscountPrice { who: String },
+    /// governance: new factory minimum price / fee bps / airdrop price / offset
+    SudoParams { min_price: Option<u128>, mint_fee_bps: Option<u64>, airdrop_price: Option<u128>, airdrop_fee_bps: Option<u64>, offset: Option<u64>, max_pal: Option<u32>, shuffle_fee: Option<u128> },
+    /// whitelist admin: add / remove a member (plain & tiered stage 0)
+    WlAddMember { who: String },
+}
+
+pub struct StepOut {
+    pub coq: Option<String>,
+    pub ok: bool,
+    pub err: Option<String>,
+    pub minted: Option<(u64, Option<String>)>,
+    pub is_minter_step: bool,
+}
+
+fn funds_of(fs: &[(String, u128)]) -> Vec<Coin> {
+    fs.iter().map(|(d, a)| coin(*a, d.clone())).collect()
+}
+
+impl SaleWorld {
+    pub fn abs_time(&self, secs: u64, nanos: i64) -> u64 {
+        ((self.t0 + secs * S) as i128 + nanos as i128) as u64
+    }
+    fn coq_funds(&mut self, fs: &[(String, u128)]) -> String {
+        coq_list(&fs.iter().map(|(d, a)| format!("mkCoin {} {}", self.denoms.id(d), a)).collect::<Vec<_>>())
+    }
+    fn exec_minter<T: serde::Serialize + std::fmt::Debug>(
+        &mut self,
+        who: &str,
+        msg: &T,
+        funds: &[(String, u128)],
+    ) -> Result<cw_multi_test::AppResponse, String> {
+        let m = self.minter.clone();
+        chain::exec(&mut self.app, who, &m, msg, &funds_of(funds))
+    }
+
+    /// Run one op. For minter ops returns the Coq `sstep`.
+    pub fn run(&mut self, op: &Op) -> StepOut {
+        use vending_minter::msg::ExecuteMsg as E;
+        use vending_minter_merkle_wl::msg::ExecuteMsg as EM;
+        let not_step = |ok: bool, err: Option<String>| StepOut { coq: None, ok, err, minted: None, is_minter_step: false };
+        match op {
+            Op::At { secs, nanos } => {
+                let t = self.abs_time(*secs, *nanos);
+                if t > chain::now(&self.app) {
+                    chain::set_time(&mut self.app, t);
+                }
+                return not_step(true, None);
+            }
+            Op::SudoParams { min_price, mint_fee_bps, airdrop_price, airdrop_fee_bps, offset, max_pal, shuffle_fee } => {
+                let msg = json!({"update_params": {
+                    "code_id": null, "add_sg721_code_ids": null, "rm_sg721_code_ids": null, "frozen": null,
+                    "creation_fee": null,
+                    "min_mint_price": min_price.map(|p| coinv(p, NATIVE)),
+                    "mint_fee_bps": mint_fee_bps, "max_trading_offset_secs": offset,
+                    "extension": {"max_token_limit": null, "max_per_address_limit": max_pal,
+                        "airdrop_mint_price": airdrop_price.map(|p| coinv(p, NATIVE)),
+                        "airdrop_mint_fee_bps": airdrop_fee_bps,
+                        "shuffle_fee": shuffle_fee.map(|p| coinv(p, NATIVE))}}});
+                let f = self.factory.clone();
+                let r = chain::sudo(&mut self.app, &f, &msg);
+                return not_step(r.is_ok(), r.err());
+            }
+            Op::WlAddMember { who } => {
+                if let Some(wl) = self.whitelist.clone() {
+                    let msg = match self.wl_kind {
+                        WlKind::Plain => json!({"add_members": {"to_add": [who]}}),
+                        WlKind::Tiered => json!({"add_members": {"to_add": [who], "stage_id": 0}}),
+                        WlKind::Flex => json!({"add_members": {"to_add": [{"address": who, "mint_count": self.cfg.wl_flex_count}]}}),
+                        WlKind::TieredFlex => {
+                            json!({"add_members": {"to_add": [{"address": who, "mint_count": self.cfg.wl_flex_count}], "stage_id": 0}})
+                        }
+                        WlKind::None => json!({}),
+                    };
+                    let r = chain::exec(&mut self.app, CREATOR, &wl, &msg, &[]);
+                    return not_step(r.is_ok(), r.err());
+                }
+                return not_step(false, Some("no whitelist".into()));
+            }
+            _ => {}
+        }
+        // ----- minter steps -----
+        let now = chain::now(&self.app);
+        let (who, funds): (String, Vec<(String, u128)>) = match op {
+            Op::Mint { who, funds } | Op::Shuffle { who, funds } | Op::MintM { who, funds, .. } => (who.clone(), funds.clone()),
+            Op::MintTo { who, funds, .. } | Op::MintFor { who, funds, .. } => (who.clone(), funds.clone()),
+            Op::Purge { who }
+            | Op::BurnRemaining { who }
+            | Op::UpdateMintPrice { who, .. }
+            | Op::UpdateStartTime { who, .. }
+            | Op::UpdateStartTradingTime { who, .. }
+            | Op::UpdatePerAddressLimit { who, .. }
+            | Op::SetWhitelist { who, .. }
+            | Op::UpdateDiscountPrice { who, .. }
+            | Op::RemoveDiscountPrice { who } => (who.clone(), vec![]),
+            _ => unreachable!(),
+        };
+        self.proof_ctx = match op {
+            Op::MintM { stage, proof: Some(p), allocation, .. } => Some((*stage, p.clone(), *allocation)),
+            _ => None,
+        };
+        let fp = self.fp_coq();
+        let wv = self.cur_wl_view(&who);
+        let before_digest = chain::storage_digest(&self.app, &self.minter);
+        let before_bal = self.balances_raw();
+        let before_tokens = self.num_tokens_collection();
+        let sender_id = self.addrs.id(&who);
+        let minter_id = self.addrs.id(self.minter.as_str());
+        let env = format!("(mkEnv {} {} {} {})", now, sender_id, self.coq_funds(&funds), minter_id);
+        let mut new_view: Option<String> = None;
+        let mut pre_positions: Vec<(u32, u32)> = vec![];
+        let res = match op {
+            Op::Mint { .. } => {
+                if self.v.merkle {
+                    self.exec_minter(&who, &EM::Mint { stage: None, proof_hashes: None, allocation: None }, &funds)
+                } else {
+                    self.exec_minter(&who, &E::Mint {}, &funds)
+                }
+            }
+            Op::MintM { stage, proof, allocation, .. } => self.exec_minter(
+                &who,
+                &EM::Mint { stage: *stage, proof_hashes: proof.clone(), allocation: *allocation },
+                &funds,
+            ),
+            Op::MintTo { recipient, .. } => self.exec_minter(&who, &E::MintTo { recipient: recipient.clone() }, &funds),
+            Op::MintFor { token_id, recipient, .. } => {
+                self.exec_minter(&who, &E::MintFor { token_id: *token_id, recipient: recipient.clone() }, &funds)
+            }
+            Op::Purge { .. } => self.exec_minter(&who, &E::Purge {}, &funds),
+            Op::Shuffle { .. } => {
+                pre_positions = self.positions();
+                self.exec_minter(&who, &E::Shuffle {}, &funds)
+            }
+            Op::BurnRemaining { .. } => self.exec_minter(&who, &E::BurnRemaining {}, &funds),
+            Op::UpdateMintPrice { price, .. } => self.exec_minter(&who, &E::UpdateMintPrice { price: *price }, &funds),
+            Op::UpdateStartTime { secs, nanos, .. } => {
+                let t = self.abs_time(*secs, *nanos);
+                self.exec_minter(&who, &E::UpdateStartTime(Timestamp::from_nanos(t)), &funds)
+            }
+            Op::UpdateStartTradingTime { t, .. } => {
+                let tt = t.map(|(s, n)| Timestamp::from_nanos(self.abs_time(s, n)));
+                self.exec_minter(&who, &E::UpdateStartTradingTime(tt), &funds)
+            }
+            Op::UpdatePerAddressLimit { limit, .. } => {
+                self.exec_minter(&who, &E::UpdatePerAddressLimit { per_address_limit: *limit }, &funds)
+            }
+            Op::SetWhitelist { kind, start_in, end_in, price, ibc, .. } => {
+                let k = match kind {
+                    0 => WlKind::Plain,
+                    1 => WlKind::Tiered,
+                    2 => WlKind::Flex,
+                    _ => WlKind::TieredFlex,
+                };
+                let denom = if *ibc { IBC } else { NATIVE };
+                let lim = self.cfg.wl_limit;
+                match self.make_whitelist(k, &[(*start_in, *end_in)], *price, denom, lim, None) {
+                    Ok(a) => {
+                        new_view = self.wl_view(&a, &who);
+                        let r = self.exec_minter(&who, &E::SetWhitelist { whitelist: a.to_string() }, &funds);
+                        if r.is_ok() {
+                            self.whitelist = Some(a.clone());
+                            self.wl_kind = k;
+                        }
+                        self.spare_whitelist = Some(a);
+                        r
+                    }
+                    Err(e) => return not_step(false, Some(e)),
+                }
+            }
+            Op::UpdateDiscountPrice { price, .. } => self.exec_minter(&who, &E::UpdateDiscountPrice { price: *price }, &funds),
+            Op::RemoveDiscountPrice { .. } => self.exec_minter(&who, &E::RemoveDiscountPrice {}, &funds),
+            _ => unreachable!(),
+        };
+        let ok = res.is_ok();
+        // what was minted: response attribute token_id + the owner the collection reports
+        let mut minted: Option<(u64, Option<String>)> = None;
+        if let Ok(r) = &res {
+            if matches!(op, Op::Mint { .. } | Op::MintM { .. } | Op::MintTo { .. } | Op::MintFor { .. }) {
+                for ev in &r.events {
+                    if ev.ty == "wasm" {
+                        if let Some(a) = ev.attributes.iter().find(|a| a.key == "token_id") {
+                            if ev.attributes.iter().any(|a| a.key == "action" && a.value.starts_with("mint")) {
+                                let id: u64 = a.value.parse().unwrap_or(0);
+                                minted = Some((id, self.owner_of(id)));
+                            }
+                        }
+                    }
+                }
+            }
+        }
+        let choice = minted.as_ref().map(|m| m.0).unwrap_or(0);
+        let coq_op = match op {
+            Op::Mint { .. } => format!("(OMint None false None {})", choice),
+            Op::MintM { stage, proof, allocation, .. } => format!(
+                "(OMint {} {} {} {})",
+                coq_opt_n(stage.map(|x| x as u64)),
+                coq_bool(proof.is_some()),
+                coq_opt_n(allocation.map(|x| x as u64)),
+                choice
+            ),
+            Op::MintTo { recipient, .. } => format!("(OMintTo true {} {})", self.addrs.id(recipient), choice),
+            Op::MintFor { token_id, recipient, .. } => format!("(OMintFor {} true {})", token_id, self.addrs.id(recipient)),
+            Op::Purge { .. } => "OPurge".into(),
+            Op::Shuffle { .. } => {
+                let ids: Vec<String> = if ok {
+                    self.positions().iter().map(|(_, i)| i.to_string()).collect()
+                } else {
+                    pre_positions.iter().map(|(_, i)| i.to_string()).collect()
+                };
+                format!("(OShuffle {})", coq_list(&ids))
+            }
+            Op::BurnRemaining { .. } => "OBurnRemaining".into(),
+            Op::UpdateMintPrice { price, .. } => format!("(OUpdateMintPrice {})", price),
+            Op::UpdateStartTime { secs, nanos, .. } => format!("(OUpdateStartTime {})", self.abs_time(*secs, *nanos)),
+            Op::UpdateStartTradingTime { t, .. } => {
+                format!("(OUpdateStartTradingTime {})", coq_opt_n(t.map(|(s, n)| self.abs_time(s, n))))
+            }
+            Op::UpdatePerAddressLimit { limit, .. } => format!("(OUpdatePerAddressLimit {})", limit),
+            Op::SetWhitelist { .. } => {
+                let a = self.spare_whitelist.clone().unwrap();
+                format!("(OSetWhitelist true {} {})", self.addrs.id(a.as_str()), new_view.clone().unwrap_or("None".into()))
+            }
+            Op::UpdateDiscountPrice { price, .. } => format!("(OUpdateDiscountPrice {})", price),
+            Op::RemoveDiscountPrice { .. } => "ORemoveDiscountPrice".into(),
+            _ => unreachable!(),
+        };
+        let minted_coq = match &minted {
+            Some((id, Some(owner))) => format!("(Some ({}, {}))", id, self.addrs.id(owner)),
+            Some((id, None)) => format!("(Some ({}, 0))", id),
+            None => "None".into(),
+        };
+        let wv_after = self.cur_wl_view(&who);
+        let obs = self.observe();
+        let obs_coq = coq_list(&obs.iter().map(|x| x.to_string()).collect::<Vec<_>>());
+        let bal = self.balances_coq();
+        let coq = format!(
+            "(mkStep {} {} {} {} {} {} {} {} {})",
+            env,
+            fp,
+            wv,
+            coq_op,
+            coq_bool(ok),
+            minted_coq,
+            wv_after,
+            obs_coq,
+            bal
+        );
+        let mut err = res.err();
+        // rejected => nothing changed (storage digest, balances, collection size): reported through `err` prefix
+        if !ok {
+            let after_digest = chain::storage_digest(&self.app, &self.minter);
+            if after_digest != before_digest || self.balances_raw() != before_bal || self.num_tokens_collection() != before_tokens {
+                err = Some(format!("STATE-CHANGED-ON-FAILURE: {}", err.unwrap_or_default()));
+            }
+        }
+        StepOut { coq: Some(coq), ok, err, minted, is_minter_step: true }
+    }
+}
+
+/// A whole case as a Coq `scase` term.
+pub fn case_coq(w: &mut SaleWorld, init: &str, init_bal: &str, steps: &[String]) -> String {
+    let accts: Vec<String> = w.count_accounts().iter().map(|a| w.addrs.id(a).to_string()).collect();
+    let pos: Vec<String> = w.positions().iter().map(|(p, i)| format!("({}, {})", p, i)).collect();
+    format!(
+        "(mkCase {} {} {} {} {} {})",
+        w.v.coq(),
+        init,
+        init_bal,
+        coq_list(&accts),
+        coq_list(steps),
+        coq_list(&pos)
+    )
+}
